@@ -1152,3 +1152,151 @@ package crypto
 //@ requires a != nil
 //@ assigns nothing
 //@ ensures len(result) == 32 && fresh(result) && be32(result[0:32]) == a.scalar
+
+// =============================================================================================
+// Threshold signatures: stateful inspector / participant (C18 lock discipline and sequential specs, C06 validation)
+
+//@ func duplicatedSignerErrorf trusted pure
+//@ assigns nothing
+//@ ensures result != nil && iserr(result, *duplicatedSignerError) && !iserr(result, *invalidInputsError) && !iserr(result, *notEnoughSharesError)
+
+//@ func notEnoughSharesErrorf trusted pure
+//@ assigns nothing
+//@ ensures result != nil && iserr(result, *notEnoughSharesError) && !iserr(result, *invalidInputsError) && !iserr(result, *duplicatedSignerError)
+
+// Lock discipline: the share map and the cached signature are only touched under s.lock (write lock for writes);
+// the other fields are never written once the constructor has returned.
+//@ heaptype blsThresholdSignatureInspector
+//@ guarded blsThresholdSignatureInspector.shares by lock
+//@ guarded blsThresholdSignatureInspector.thresholdSignature by lock
+//@ immutable blsThresholdSignatureInspector.size
+//@ immutable blsThresholdSignatureInspector.threshold
+//@ immutable blsThresholdSignatureInspector.groupPublicKey
+//@ immutable blsThresholdSignatureInspector.publicKeyShares
+//@ immutable blsThresholdSignatureInspector.hasher
+//@ immutable blsThresholdSignatureInspector.message
+
+//@ pred keysOK(ks) = forall(k, 0, len(ks), typeis(ks[k], *pubKeyBLSBLS12381) && unbox(ks[k], *pubKeyBLSBLS12381) != nil)
+//@ pred tsShape(s) = s != nil && s.shares != nil && 1 <= s.threshold && s.threshold < s.size && s.size <= 254 && len(s.publicKeyShares) == s.size && keysOK(s.publicKeyShares) && typeis(s.groupPublicKey, *pubKeyBLSBLS12381) && unbox(s.groupPublicKey, *pubKeyBLSBLS12381) != nil && hasherOK(s.hasher)
+// at most t+1 shares, one per signer index below size; a cached signature has the signature length
+//@ pred tsInv(s) = tsShape(s) && len(s.shares) <= s.threshold + 1 && forall(k, 0, 256, has(s.shares, k) ==> k < s.size) && (s.thresholdSignature != nil ==> len(s.thresholdSignature) == 48)
+// history facts every operation keeps: shares are never removed or replaced, the cached signature never changes once set
+//@ pred tsKept(s) = unchanged(s.size) && unchanged(s.threshold) && unchanged(s.groupPublicKey) && unchanged(s.publicKeyShares) && unchanged(s.hasher) && unchanged(s.message) && unchanged(s.shares) && forall(k, 0, 256, old(has(s.shares, k)) ==> has(s.shares, k) && s.shares[k] == old(s.shares[k])) && (old(s.thresholdSignature) != nil ==> s.thresholdSignature == old(s.thresholdSignature))
+//@ pred tsSameShares(s) = len(s.shares) == old(len(s.shares)) && forall(k, 0, 256, has(s.shares, k) == old(has(s.shares, k)))
+//@ pred unlocked(s) = s.lock.mode == 0
+// sig verifies under key object pk (a *pubKeyBLSBLS12381) for the inspector's message and hasher
+//@ pred tsVerifies(s, pk, sig) = len(sig) == 48 && !pk.isIdentity && g1canon(sig) && inG1(g1pt(sig)) && pairOK2(g1pt(sig), negG2(), h2cd(hout(s.hasher.cfg, seqid(s.message))), pk.point)
+
+//@ func (*blsThresholdSignatureInspector).validIndex mode int props C18 C06 C09
+//@ requires s != nil
+//@ assigns nothing
+//@ ensures (result == nil) == (0 <= orig && orig < s.size)
+//@ ensures result != nil ==> iserr(result, *invalidInputsError)
+
+//@ func (*blsThresholdSignatureInspector).enoughShares mode int props C18 C06 C09
+//@ requires s != nil && s.shares != nil && s.lock.mode >= 1 && 0 <= s.threshold && s.threshold <= 254
+//@ assigns nothing
+//@ ensures result == (len(s.shares) == s.threshold + 1)
+
+//@ func (*blsThresholdSignatureInspector).hasShare mode int props C18 C06 C09
+//@ requires s != nil && s.shares != nil && s.lock.mode >= 1
+//@ assigns nothing
+//@ ensures result == has(s.shares, orig)
+
+//@ func (*blsThresholdSignatureInspector).EnoughShares mode int props C18 C06 C09
+//@ requires tsInv(s) && unlocked(s)
+//@ assigns s.lock
+//@ ensures [verdict] result == (len(s.shares) == s.threshold + 1)
+//@ ensures [one-critical-section] unlocked(s) && s.lock.acq == old(s.lock.acq) + 1
+
+//@ func (*blsThresholdSignatureInspector).HasShare mode int props C18 C06 C09
+//@ requires tsInv(s) && unlocked(s)
+//@ assigns s.lock
+//@ ensures [invalid-index] !(0 <= orig && orig < s.size) ==> !result0 && iserr(result1, *invalidInputsError) && nothingAssigned()
+//@ ensures [verdict] 0 <= orig && orig < s.size ==> result1 == nil && result0 == has(s.shares, orig)
+//@ ensures [one-critical-section] unlocked(s) && s.lock.acq <= old(s.lock.acq) + 1
+
+//@ func (*blsThresholdSignatureInspector).VerifyShare mode int props C18 C06 C09
+//@ requires tsInv(s)
+//@ assigns ghost(s.hasher)
+//@ ensures [invalid-index] !(0 <= orig && orig < s.size) ==> !result0 && iserr(result1, *invalidInputsError)
+//@ ensures [verdict-is-verification-under-the-signer's-key-share] 0 <= orig && orig < s.size ==> result1 == nil && result0 == tsVerifies(s, unbox(s.publicKeyShares[orig], *pubKeyBLSBLS12381), share)
+//@ ensures [lock-free] unchanged(s.lock.mode) && unchanged(s.lock.acq)
+//@ ensures [hasher-kept] hasherOK(s.hasher)
+
+//@ func (*blsThresholdSignatureInspector).VerifyThresholdSignature mode int props C18 C06 C09
+//@ requires tsInv(s)
+//@ assigns ghost(s.hasher)
+//@ ensures [verdict-is-verification-under-the-group-key] result1 == nil && result0 == tsVerifies(s, unbox(s.groupPublicKey, *pubKeyBLSBLS12381), thresholdSignature)
+//@ ensures [lock-free] unchanged(s.lock.mode) && unchanged(s.lock.acq)
+//@ ensures [hasher-kept] hasherOK(s.hasher)
+
+//@ func (*blsThresholdSignatureInspector).TrustedAdd mode int props C18 C06 C09
+//@ requires tsInv(s) && unlocked(s)
+//@ assigns s.lock, obj(s.shares)
+//@ ensures [inv] tsInv(s) && tsKept(s)
+//@ ensures [invalid-index] !(0 <= orig && orig < s.size) ==> !result0 && iserr(result1, *invalidInputsError) && nothingAssigned()
+//@ ensures [duplicate] 0 <= orig && orig < s.size && old(has(s.shares, orig)) ==> !result0 && iserr(result1, *duplicatedSignerError) && tsSameShares(s)
+//@ ensures [already-enough] 0 <= orig && orig < s.size && !old(has(s.shares, orig)) && old(len(s.shares)) == s.threshold + 1 ==> result0 && result1 == nil && tsSameShares(s)
+//@ ensures [added] 0 <= orig && orig < s.size && !old(has(s.shares, orig)) && old(len(s.shares)) != s.threshold + 1 ==> result1 == nil && has(s.shares, orig) && s.shares[orig] == share && len(s.shares) == old(len(s.shares)) + 1 && result0 == (len(s.shares) == s.threshold + 1) && forall(k, 0, 256, k != orig ==> has(s.shares, k) == old(has(s.shares, k)))
+//@ ensures [one-critical-section] unlocked(s) && s.lock.acq <= old(s.lock.acq) + 1
+
+//@ func (*blsThresholdSignatureInspector).VerifyAndAdd mode int props C18 C06 C09
+//@ dead-return 2   // Verify only fails for a nil or ill-sized hasher: excluded by the inspector's invariant
+//@ requires tsInv(s) && unlocked(s)
+//@ assigns s.lock, obj(s.shares), ghost(s.hasher)
+//@ ensures [inv] tsInv(s) && tsKept(s)
+//@ ensures [invalid-index] !(0 <= orig && orig < s.size) ==> !shareIsValid && !enoughSharesCollected && iserr(err, *invalidInputsError) && nothingAssigned()
+//@ ensures [duplicate] 0 <= orig && orig < s.size && old(has(s.shares, orig)) ==> !shareIsValid && !enoughSharesCollected && iserr(err, *duplicatedSignerError) && tsSameShares(s)
+//@ ensures [never-an-unverified-share] 0 <= orig && orig < s.size && !old(has(s.shares, orig)) && err == nil && !shareIsValid ==> tsSameShares(s)
+//@ ensures [added-iff-valid-and-room] 0 <= orig && orig < s.size && !old(has(s.shares, orig)) && err == nil ==> has(s.shares, orig) == (shareIsValid && old(len(s.shares)) != s.threshold + 1) && enoughSharesCollected == (len(s.shares) == s.threshold + 1) && forall(k, 0, 256, k != orig ==> has(s.shares, k) == old(has(s.shares, k)))
+//@ ensures [added-share-is-the-argument] has(s.shares, orig) && !old(has(s.shares, orig)) ==> s.shares[orig] == share
+//@ ensures [verdict-is-verification-under-the-signer's-key-share] 0 <= orig && orig < s.size && !old(has(s.shares, orig)) ==> err == nil && shareIsValid == tsVerifies(s, unbox(s.publicKeyShares[orig], *pubKeyBLSBLS12381), share)
+//@ ensures [one-critical-section] unlocked(s) && s.lock.acq <= old(s.lock.acq) + 1
+
+//@ func (*blsThresholdSignatureInspector).ThresholdSignature mode int props C18 C06 C09
+//@ requires tsInv(s) && unlocked(s)
+//@ assigns s.lock, s.thresholdSignature, ghost(s.hasher)
+//@ ensures [inv] tsInv(s) && tsKept(s) && tsSameShares(s)
+//@ ensures [cached-signature-is-returned-again] old(s.thresholdSignature) != nil ==> result1 == nil && result0 == old(s.thresholdSignature)
+//@ ensures [not-enough] old(s.thresholdSignature) == nil && len(s.shares) != s.threshold + 1 ==> result0 == nil && iserr(result1, *notEnoughSharesError) && s.thresholdSignature == nil
+//@ ensures [success-is-cached] result1 == nil ==> result0 != nil && len(result0) == 48 && s.thresholdSignature == result0
+//@ ensures [failure-caches-nothing] result1 != nil ==> result0 == nil && s.thresholdSignature == old(s.thresholdSignature)
+//@ ensures [never-an-unverified-signature] result1 == nil && old(s.thresholdSignature) == nil ==> tsVerifies(s, unbox(s.groupPublicKey, *pubKeyBLSBLS12381), result0)
+//@ ensures [one-critical-section] unlocked(s) && s.lock.acq == old(s.lock.acq) + 1
+
+//@ func (*blsThresholdSignatureInspector).reconstructThresholdSignature mode int props C18 C06 C09
+//@ dead-return 4   // VerifyThresholdSignature has no error return under the inspector's invariant
+//@ requires tsInv(s) && s.lock.mode == 2
+//@ assigns ghost(s.hasher)
+//@ ensures [not-enough] len(s.shares) != s.threshold + 1 ==> result0 == nil && iserr(result1, *notEnoughSharesError)
+//@ ensures [success] result1 == nil ==> result0 != nil && len(result0) == 48 && fresh(result0)
+//@ ensures [never-an-unverified-signature] result1 == nil ==> tsVerifies(s, unbox(s.groupPublicKey, *pubKeyBLSBLS12381), result0)
+//@ ensures [failure] result1 != nil ==> result0 == nil
+//@ ensures [lock-kept] unchanged(s.lock.mode) && unchanged(s.lock.acq)
+//@ ensures [hasher-kept] hasherOK(s.hasher)
+//@ loop 1 invariant len(signers) == nvisited() && len(shares) == 48 * nvisited() && nvisited() <= s.threshold + 1
+
+//@ func NewBLSThresholdSignatureInspector mode int props C18 C06 C09
+//@ requires noTypedNilKeys(sharePublicKeys) && (typeis(groupPublicKey, *pubKeyBLSBLS12381) ==> unbox(groupPublicKey, *pubKeyBLSBLS12381) != nil)
+//@ assigns nothing
+//@ ensures [size-range] (len(sharePublicKeys) < 2 || len(sharePublicKeys) > 254) ==> result0 == nil && iserr(result1, *invalidInputsError)
+//@ ensures [threshold-range] !(len(sharePublicKeys) < 2 || len(sharePublicKeys) > 254) && (threshold >= len(sharePublicKeys) || threshold < 1) ==> result0 == nil && iserr(result1, *invalidInputsError)
+//@ ensures [ok] result1 == nil ==> result0 != nil && fresh(result0) && tsInv(result0) && unlocked(result0) && len(result0.shares) == 0 && result0.thresholdSignature == nil && result0.size == len(sharePublicKeys) && result0.threshold == threshold
+//@ ensures [error] result1 != nil ==> result0 == nil
+//@ loop 1 invariant forall(k, 0, i, typeis(sharePublicKeys[k], *pubKeyBLSBLS12381))
+
+//@ func (*blsThresholdSignatureParticipant).SignShare mode int props C18 C06 C09
+//@ requires s != nil && s.blsThresholdSignatureInspector != nil && s.myPrivateKey != nil && (typeis(s.myPrivateKey, *prKeyBLSBLS12381) ==> unbox(s.myPrivateKey, *prKeyBLSBLS12381) != nil)
+//@ assigns ghost(s.blsThresholdSignatureInspector.hasher)
+//@ ensures [lock-free] unchanged(s.blsThresholdSignatureInspector.lock.mode) && unchanged(s.blsThresholdSignatureInspector.lock.acq)
+
+//@ func EnoughShares mode int props C06 C09
+//@ assigns nothing
+//@ ensures threshold < 1 ==> !result0 && iserr(result1, *invalidInputsError)
+//@ ensures threshold >= 1 ==> result1 == nil && result0 == (sharesNumber > threshold)
+
+// E1_lagrange_interpolate_at_zero_write reads degree+1 serialized signatures of 48 bytes each and degree+1 signer indices
+//@ cfunc E1_lagrange_interpolate_at_zero_write nobody props C06 C09
+//@ requires degree >= 0 && valid(dest, 48) && valid(shares, 48*(degree+1)) && valid(indices, degree+1)
+//@ assigns dest[0:48]
